@@ -44,12 +44,13 @@ class Case:
 
 
 class Outcome:
-    __slots__ = ('case', 'impl', 'model', 'spec', 'aux', 'corr_ok', 'prop_ok', 'note')
+    __slots__ = ('case', 'impl', 'model', 'spec', 'aux', 'corr_ok', 'prop_ok', 'note', 'in_domain')
 
     def __init__(self, case, impl, model, spec, aux):
         self.case, self.impl, self.model, self.spec, self.aux = case, impl, model, spec, aux
         self.corr_ok = self.prop_ok = True
         self.note = ''
+        self.in_domain = True   # False: input outside the property's quantifier (model mismatch there is recorded, not alarmed)
 
     def to_json(self):
         return {'case': self.case.to_json(), 'implementation': self.impl, 'model': self.model,
@@ -361,7 +362,10 @@ def run_check(pid, tier, seed, replay=None):
     gen = list(P.generate(ctx))
     cases = [c for c in corpus + gen if c.key() not in known_keys]
     outs = evaluate_cases(P, ctx, cases)
-    corr_bad = [o for o in outs if not o.corr_ok]
+    corr_bad = [o for o in outs if not o.corr_ok and o.in_domain]
+    ood_bad = [o for o in outs if not o.corr_ok and not o.in_domain]
+    if ood_bad:
+        print('NOTE: %d model/implementation differences on inputs outside the property\'s domain (recorded in evidence, not a verdict): first %s' % (len(ood_bad), ood_bad[0].case.key()[:120]), flush=True)
     prop_bad = [o for o in outs if not o.prop_ok]
     nontriv = getattr(P, 'nontrivial', lambda o: o.spec not in ('-', '') and not o.spec.startswith('err'))
     distinct = {o.case.key() for o in outs if nontriv(o)}
@@ -432,6 +436,7 @@ def run_check(pid, tier, seed, replay=None):
         'samples': samples[:6] + extra_stats.get('samples', [])[:4],
         'distribution': dict(sorted(ctx.dist.items())),
         'model_mismatches': len(corr_bad), 'spec_mismatches': len(prop_bad),
+        'out_of_domain_model_mismatches': [o.to_json() for o in ood_bad[:3]], 'out_of_domain_model_mismatch_count': len(ood_bad),
         'known_findings_reproduced': known_lines,
         'problems': problems,
         'exhaustive': bool(getattr(P, 'EXHAUSTIVE', {}).get(tier)),
